@@ -1,6 +1,6 @@
 """C11 - key generation, signing and lifetime queries reject malformed inputs instead of crashing.
 
-Same PF engine as C06 from the entry points keygen / sign / sign_mut / SigningKey::{from_bytes, get_lifetime,
+Same PF engine as C06 from the entry points keygen / sign / SigningKey::{from_bytes, get_lifetime,
 try_sign_with_aux} / SignerMut::try_sign with parameter-list length, private-key bytes and aux bytes unknown;
 plus: the update callback is unreachable on error paths (C04-R4 re-checked here) and the one recursion
 (tree element computation) is bounded by a guarded doubling of the node index."""
@@ -25,7 +25,8 @@ def run(chk, ctx):
         A = Api(F)
         chk.configs.append(name)
         tag = "" if name == "default" else "[%s]" % name
-        entries = A.entries_keygen() + A.entries_sign() + A.entries_lifetime() + A.entries_key_constructors()
+        # sign_mut (fast-verify builds) is C15's entry point; here the immutable-message entries in every build
+        entries = A.entries_keygen() + A.entries_sign_plain() + A.entries_lifetime() + A.entries_key_constructors()
         pf.run(chk, F, A, entries, "sign:" + name, allow_recursion=("lms::helper::get_tree_element",), tag=tag)
         # callback unreachable on error paths: every Result-returning step before the callback has its failure edge cut off
         tree, sites = c04.find_core(F, A.entries_sign())
